@@ -260,24 +260,33 @@ Definition const_index (x : string) : option nat :=
     end
   else None.
 
+(* sequencing helpers: thread a state through a list / an optional element *)
+Fixpoint seq_list {S A B} (f : S -> A -> option (S * B)) (st : S) (l : list A) : option (S * list B) :=
+  match l with
+  | [] => Some (st, [])
+  | x :: r => match f st x with
+              | Some (st1, v) => match seq_list f st1 r with
+                                 | Some (st2, vs) => Some (st2, v :: vs)
+                                 | None => None end
+              | None => None end
+  end.
+Definition seq_opt {S A B} (f : S -> A -> option (S * B)) (st : S) (o : option A) : option (S * option B) :=
+  match o with
+  | None => Some (st, None)
+  | Some x => match f st x with Some (st1, v) => Some (st1, Some v) | None => None end
+  end.
+
+Definition call_is_pure (sf : sval) (skw : list (string * sval)) : option string :=
+  match sf, skw with
+  | SBuiltin name, [] => if is_pure_builtin name then Some name else None
+  | _, _ => None
+  end.
+
 Fixpoint sx (fuel : nat) (s : store) (es : list event) (e : expr) {struct fuel} : option (list event * sval) :=
   match fuel with
   | O => None
   | S f =>
-    let sx_list := fix go (es : list event) (l : list expr) : option (list event * list sval) :=
-                     match l with
-                     | [] => Some (es, [])
-                     | x :: r => match sx f s es x with
-                                 | Some (es1, v) => match go es1 r with
-                                                    | Some (es2, vs) => Some (es2, v :: vs)
-                                                    | None => None end
-                                 | None => None end
-                     end in
-    let sx_opt := fun (es : list event) (o : option expr) =>
-                    match o with
-                    | None => Some (es, None)
-                    | Some x => match sx f s es x with Some (es1, v) => Some (es1, Some v) | None => None end
-                    end in
+    let go := fun es x => sx f s es x in
     match e with
     | XVar x =>
       match slookup s x with
@@ -286,42 +295,39 @@ Fixpoint sx (fuel : nat) (s : store) (es : list event) (e : expr) {struct fuel} 
       end
     | XInt z => Some (es, SInt z) | XStr t => Some (es, SStr t) | XNone => Some (es, SNone)
     | XBool b => Some (es, SBool b) | XFloat t => Some (es, SFloat t)
-    | XTuple l => match sx_list es l with Some (es1, vs) => Some (es1, STuple vs) | None => None end
-    | XList l => match sx_list es l with Some (es1, vs) => Some (es1, SList vs) | None => None end
+    | XTuple l => match seq_list go es l with Some (es1, vs) => Some (es1, STuple vs) | None => None end
+    | XList l => match seq_list go es l with Some (es1, vs) => Some (es1, SList vs) | None => None end
     | XDict l =>
-      match sx_list es (map fst l) with
-      | Some (es1, ks) => match sx_list es1 (map snd l) with
+      match seq_list go es (map fst l) with
+      | Some (es1, ks) => match seq_list go es1 (map snd l) with
                           | Some (es2, vs) => Some (es2, SDict (combine ks vs))
                           | None => None end
       | None => None end
     | XSlice a b c =>
-      match sx_opt es a with
-      | Some (es1, sa) => match sx_opt es1 b with
-                          | Some (es2, sb) => match sx_opt es2 c with
+      match seq_opt go es a with
+      | Some (es1, sa) => match seq_opt go es1 b with
+                          | Some (es2, sb) => match seq_opt go es2 c with
                                               | Some (es3, sc) => Some (es3, SSlice sa sb sc)
                                               | None => None end
                           | None => None end
       | None => None end
-    | XAttr o k => match sx f s es o with Some (es1, so) => Some (es1, SAttr so k) | None => None end
+    | XAttr o k => match go es o with Some (es1, so) => Some (es1, SAttr so k) | None => None end
     | XItem o k =>
-      match sx f s es o with
-      | Some (es1, so) => match sx f s es1 k with Some (es2, sk) => Some (es2, SItem so sk) | None => None end
+      match go es o with
+      | Some (es1, so) => match go es1 k with Some (es2, sk) => Some (es2, SItem so sk) | None => None end
       | None => None end
-    | XOp op args => match sx_list es args with Some (es1, vs) => Some (es1, SOp op vs) | None => None end
+    | XOp op args => match seq_list go es args with Some (es1, vs) => Some (es1, SOp op vs) | None => None end
     | XCall fn args kw =>
-      match sx f s es fn with
+      match go es fn with
       | Some (es1, sf) =>
-        match sx_list es1 args with
+        match seq_list go es1 args with
         | Some (es2, sa) =>
-          match sx_list es2 (map snd kw) with
+          match seq_list go es2 (map snd kw) with
           | Some (es3, skv) =>
             let skw := combine (map fst kw) skv in
-            match sf with
-            | SBuiltin name =>
-              if is_pure_builtin name && match skw with [] => true | _ => false end
-              then Some (es3, SPure name sa)
-              else Some (es3 ++ [ECall sf sa skw], SEv (List.length es3))
-            | _ => Some (es3 ++ [ECall sf sa skw], SEv (List.length es3))
+            match call_is_pure sf skw with
+            | Some name => Some (es3, SPure name sa)
+            | None => Some (es3 ++ [ECall sf sa skw], SEv (List.length es3))
             end
           | None => None end
         | None => None end
